@@ -48,22 +48,45 @@ func (w *WaitGroup) InstanceVariables() *InstanceVariables {
 	return nil
 }
 
-func (w *WaitGroup) Add(n int) {
-	w.Native.Add(n)
-}
-
-func (w *WaitGroup) Remove(n int) {
-	for range n {
-		w.Native.Done()
+// Turns the panic of the Go WaitGroup (negative counter, misuse) into an Elk error.
+func recoverWaitGroupPanic(err *Value) {
+	if r := recover(); r != nil {
+		msg := fmt.Sprint(r)
+		if msg == "sync: negative WaitGroup counter" {
+			msg = "WaitGroup counter cannot be negative"
+		}
+		*err = Ref(NewError(OutOfRangeErrorClass, msg))
 	}
 }
 
-func (w *WaitGroup) Start() {
-	w.Native.Add(1)
+func (w *WaitGroup) Add(n int) (err Value) {
+	defer recoverWaitGroupPanic(&err)
+
+	w.Native.Add(n)
+	return Undefined
 }
 
-func (w *WaitGroup) End() {
+func (w *WaitGroup) Remove(n int) (err Value) {
+	defer recoverWaitGroupPanic(&err)
+
+	for range n {
+		w.Native.Done()
+	}
+	return Undefined
+}
+
+func (w *WaitGroup) Start() (err Value) {
+	defer recoverWaitGroupPanic(&err)
+
+	w.Native.Add(1)
+	return Undefined
+}
+
+func (w *WaitGroup) End() (err Value) {
+	defer recoverWaitGroupPanic(&err)
+
 	w.Native.Done()
+	return Undefined
 }
 
 func (w *WaitGroup) Wait() {
